@@ -188,5 +188,157 @@ def run(ctx):
 
 
 # ---------------------------------------------------------------------- C01.5 seq cell typestate
+DEREFS = (r'::deref$', r'::deref_mut$')
+
+
+def cell_sig(f, op):
+    """signature of the place a seq operand is loaded from (local + projection names)."""
+    o = f.origin(op, through_calls=DEREFS)
+    if o[0] != 'local':
+        return None
+    return (o[1], tuple(pp if pp == '*' else (pp.get('n') or pp.get('f')) if isinstance(pp, dict) and 'f' in pp else '?' for pp in o[2]))
+
+
 def c015(ctx):
-    pass
+    """every frame built from a seq cell is followed by exactly one advance of that cell
+    before the next frame is built from it or the function returns; no advance without a
+    frame. Explored over (block, pending frames)."""
+    P = ctx.prog
+    ctx.rule('C01.5', 'seq-cell typestate for every session / tool / provider / task frame construction outside ContinuityStore: on every path, a frame that is built from a seq cell and delivered (moved out) is followed by exactly one `cell += 1` before another frame is built from the cell or the function returns, and the cell is never advanced without a frame. A frame that is dropped un-moved does not count; callees that receive `&mut cell` and are in the checked set are balanced steps.')
+    fnset = []
+    for p, f in sorted(P.fns.items()):
+        if p.startswith(STORE) or f.crate not in ('ripd', 'rip_tools', 'rip_kernel', 'rip_provider_openresponses'):
+            continue
+        aggs = [(bi, si, st) for (bi, si, st) in f.aggregates(r'^rip_kernel::Event$') if op_const(st['rv']['a'][st['rv']['fields'].index('seq')]) is None]
+        if aggs:
+            fnset.append((f, aggs))
+    ctx.floor('C01.5', 'functions building frames from a seq cell', len(fnset), 8)
+    total = 0
+    for f, aggs in fnset:
+        ctx.touch(f)
+        sigs = {}
+        for (bi, si, st) in aggs:
+            rv = st['rv']
+            sg = cell_sig(f, rv['a'][rv['fields'].index('seq')])
+            if sg is None:
+                raise CheckError('C01.5: seq operand of a frame in %s does not resolve to a cell (unrecognised idiom, %s:%s)' % (f.path, f.file, st.get('ln')))
+            sigs.setdefault(sg, []).append((bi, st))
+        if len(sigs) != 1:
+            raise CheckError('C01.5: %s builds frames from %d different seq cells (unrecognised idiom)' % (f.path, len(sigs)))
+        sg = next(iter(sigs))
+        if '*' not in sg[1] and 1 <= sg[0] <= f.argc and f.kind != 'Closure':
+            ctx.note('C01.5: %s takes the seq by value (constructor); its callers are checked through the call' % f.path)
+            continue
+        if f.path.startswith('ripd::session::run_session'):
+            ctx.note('C01.5: run_session builds the two mutually exclusive terminal frames from its local copy of the cell; at most one per path is proved by C07.2 (flag-correlated), the cell is not used afterwards')
+            continue
+        total += len(aggs)
+        # constructions: block -> event local
+        cons = {}
+        for (bi, st) in sigs[sg]:
+            cons.setdefault(bi, []).append(st['d']['l'])
+        # pseudo constructions: callee receives the cell's VALUE and returns an Event
+        for s in f.sites():
+            sgn = P.sigs.get(s.callee)
+            if sgn and 'rip_kernel::Event' in sgn['output'] and not re.search(r'&mut u64', ' '.join(sgn['inputs'])):
+                for a in s.args:
+                    o = f.origin(a)
+                    if o[0] == 'rv' and o[1]['k'] == 'agg':
+                        if any(cell_sig(f, x) == sg for x in o[1]['a'] if op_place(x)):
+                            cons.setdefault(s.bb, []).append(s.dest['l'])
+                    elif cell_sig(f, a) == sg and f.lty(op_base(a)) in ('u64',):
+                        cons.setdefault(s.bb, []).append(s.dest['l'])
+        # moves of Event values: block -> set of construction locals delivered there
+        moves = {}
+        ev_locals = [i for i, l in enumerate(f.locals) if l['ty'] == 'rip_kernel::Event']
+        from ..prov import reads_locals as _rl
+        all_cons = {l for ls in cons.values() for l in ls}
+        for el in ev_locals:
+            src = set()
+            cur = el
+            for _ in range(12):
+                if cur in all_cons:
+                    src = {cur}
+                    break
+                ds = f.defs(cur)
+                if len(ds) != 1:
+                    break
+                d1 = ds[0]
+                if d1[2] == 'rv' and d1[3]['k'] in ('use', 'cast') and op_base(d1[3]['a'][0]) is not None:
+                    cur = op_base(d1[3]['a'][0])
+                elif d1[2] == 'call' and re.search(r'Try>::branch$|::unwrap$|::expect$', Site(f, d1[0], d1[3]).callee):
+                    cur = op_base(d1[3]['a'][0])
+                    if cur is None:
+                        break
+                else:
+                    break
+            if not src:
+                continue
+            for (bi, si, how, payload) in f.uses(el):
+                moved = False
+                if how.startswith('arg'):
+                    moved = True
+                elif how == 'stmt':
+                    rv = payload['rv']
+                    if rv['k'] == 'agg' or (rv['k'] == 'use' and payload['d']['l'] == 0):
+                        moved = any('m' in o and 'p' not in o['m'] and o['m']['l'] == el for o in rv.get('a', []))
+                    elif rv['k'] == 'use' and f.lty(payload['d']['l']) != 'rip_kernel::Event':
+                        moved = any('m' in o and o['m']['l'] == el for o in rv.get('a', []))
+                if moved:
+                    moves.setdefault(bi, set()).update(src)
+        for s2 in f.sites():
+            for a in s2.args:
+                r = f.root_local(a)
+                if r in all_cons:
+                    moves.setdefault(s2.bb, set()).add(r)
+        # advances
+        advs = {}
+        for bi in f.reachable():
+            for st in f.blocks[bi]['s']:
+                rv = st.get('rv')
+                if rv and rv['k'] == 'bin' and rv['op'].startswith('Add') and op_const(rv['a'][1]) is not None and op_const(rv['a'][1]).get('v') == '1':
+                    if cell_sig(f, rv['a'][0]) == sg:
+                        advs[bi] = st.get('ln')
+        move_blocks_of = {}
+        for b, ls in moves.items():
+            for l in ls:
+                move_blocks_of.setdefault(l, set()).add(b)
+        terminal_ok = f.path.startswith('ripd::session::run_session')
+        # exploration
+        errors = {}
+        seen = set()
+        work = [(0, frozenset())]
+        while work:
+            b, pend = work.pop()
+            if (b, pend) in seen:
+                continue
+            seen.add((b, pend))
+            cur = set(pend)
+            if b in cons:
+                # frames of earlier constructions that can no longer be delivered are dead
+                reach = f.reach(b)
+                cur = {(l, m) for (l, m) in cur if m or (move_blocks_of.get(l, set()) & reach)}
+                if cur:
+                    errors.setdefault(('dup', b), 'a second frame is built from the seq cell before the cell was advanced for the first (two frames with one seq)')
+                for l in cons[b]:
+                    cur.add((l, False))
+            if b in moves:
+                cur = {(l, True if l in moves[b] else m) for (l, m) in cur}
+            if b in advs:
+                live = {(l, m) for (l, m) in cur if m or (move_blocks_of.get(l, set()) & f.reach(b))}
+                if not live:
+                    errors.setdefault(('gap', b), 'the seq cell is advanced although no frame was built from it (gap)')
+                cur = set()
+            t = f.blocks[b]['t']
+            if t['k'] == 'ret':
+                left = {l for (l, m) in cur if m}
+                if left and not terminal_ok:
+                    errors.setdefault(('noadv', b), 'a frame built from the seq cell is delivered but the cell is not advanced before return (the next frame repeats the seq)')
+                continue
+            for s2 in f.succs(b):
+                work.append((s2, frozenset(cur)))
+        ctx.ob('C01.5', f, 'seq-cell-typestate', not errors,
+               '%d frame construction(s), %d advance site(s), %d (block, pending) states explored: %s' % (
+                   sum(len(v) for v in cons.values()), len(advs), len(seen), 'use / advance alternate on every path' if not errors else '; '.join(sorted(set(errors.values())))),
+               line=(advs.get(next(iter(errors))[1]) or f.blocks[next(iter(errors))[1]]['t'].get('ln') or f.line) if errors else f.line)
+    ctx.floor('C01.5', 'frame constructions from a seq cell', total, 12)
